@@ -174,7 +174,7 @@ def merge(results, key_list):
     out = {'cases': 0, 'distinct': 0, 'samples': [], 'dist': {}, 'errors': []}
     for k in key_list: out[k] = []
     for r in results:
-        out['cases'] += r.get('cases', 0); out['distinct'] += r.get('distinct', 0)
+        out['cases'] += r.get('cases', 0); out['distinct'] = max(out['distinct'], r.get('distinct', 0))  # conservative: shards may overlap
         for k in key_list: out[k].extend(r.get(k, []))
         if len(out['samples']) < 8: out['samples'].extend(r.get('samples', [])[:2])
         for k, v in (r.get('dist') or {}).items():
@@ -307,7 +307,7 @@ def run_check(spec: Spec, tier='quick', seed=0, budgets=None):
             except Exception:
                 log('probe crashed', traceback.format_exc()[-500:])
         r = pmap(spec.oracle, 'search', seed, n, shards=b['shards'], key_list=('violations',))
-        for k in ('cases', 'distinct'): search[k] += r[k]
+        search['cases'] += r['cases']; search['distinct'] = max(search['distinct'], r['distinct'])
         search['violations'] += r['violations']; search['samples'] = r['samples']; search['dist'] = r['dist']
         search['errors'] = r['errors']
         if r['errors']:
@@ -345,7 +345,7 @@ def run_check(spec: Spec, tier='quick', seed=0, budgets=None):
     obligations = len(pr['theorems']) + pr['examples']
     discharged = (len(audited) + pr['examples']) if not any(x.startswith(('lean-build', 'sorry', 'missing-module')) for x in broken) else 0
     corr_cases = sum(r['cases'] for r in corr_res.values())
-    corr_dist = sum(r['distinct'] for r in corr_res.values())
+    corr_dist = sum(r['distinct'] for r in corr_res.values())  # per module: max over shards (lower bound)
     samples = [{'theorem': t, 'axioms': next((pr['axioms'][k] for k in pr['axioms'] if k == t or k.endswith('.' + t)), None)} for t in pr['theorems'][:6]]
     for mname, r in corr_res.items():
         samples += [{'correspondence': mname, 'case': jsonable(s)} for s in r['samples'][:3]]
@@ -359,7 +359,7 @@ def run_check(spec: Spec, tier='quick', seed=0, budgets=None):
             'theorems': pr['theorems'], 'examples_kernel_checked': pr['examples'], 'axioms': pr['axioms'],
             'leanchecker': lc,
             'evaluations': corr_cases + search['cases'], 'distinct_nontrivial': corr_dist + search['distinct'],
-            'rule': 'correspondence cases: model (compiled Lean driver) and implementation run on the same input, distinct = distinct inputs '
+            'rule': 'distinct_nontrivial is a lower bound (the largest per-shard count of distinct non-trivial inputs, summed over modules, shards may overlap); correspondence cases: model (compiled Lean driver) and implementation run on the same input, distinct = distinct inputs '
                     'outside the trivial class named by each module; search cases: the property oracle evaluated on the implementation',
             'correspondence': {m: {'cases': r['cases'], 'distinct': r['distinct'], 'disagreements': len(r['disagreements']),
                                    'dist': jsonable(r['dist'])} for m, r in corr_res.items()},
